@@ -212,18 +212,49 @@ class PrintReader:
                 return dflt
         return None
 
-    def lit(self, e):
+    def lit(self, e, olds=("old",)):
+        while e.get("k") == "cast":
+            e = e["e"]
         if e.get("k") == "str":
             return e.get("v")
+        if e.get("k") == "call" and e.get("fn") and e.get("recv") is None and \
+                any(self._is_kind_expr(a) for a in e.get("args", [])):
+            # a helper mapping the kind to its text: `switch (kind) { case PLUS: return " + "; ... }`
+            for fn in self.F.fns(e["fn"]):
+                if fn.get("body") is None or len(fn["params"]) != len(e["args"]):
+                    continue
+                inner = tuple(p["name"] for p, a in zip(fn["params"], e["args"])
+                              if a.get("k") == "ref" and a.get("name") in olds)
+                try:
+                    cases = _cases(fn)
+                except Exception:
+                    return None
+                pick = None
+                for labels, stmts in cases:
+                    if self.kind in labels:
+                        pick = stmts
+                if pick is None:
+                    for labels, stmts in cases:
+                        if "default" in labels:
+                            pick = stmts
+                if pick is None:
+                    return None
+                for x in walk({"k": "block", "s": pick}):
+                    if x.get("k") == "return" and x.get("e") is not None:
+                        return self.lit(x["e"], inner or ("old",))
+                return None
         if e.get("k") == "char":
             return chr(e["v"])
         if e.get("k") == "cond":
-            a, b = self.lit(e["a"]), self.lit(e["b"])
+            a, b = self.lit(e["a"], olds), self.lit(e["b"], olds)
             if a is not None and b is not None:
                 # `old ? " := " : " = "`, kind-dependent pairs: take the variant for the new syntax / this kind
                 cs = short(e["c"])
-                if cs.strip("()") == "old":
+                if cs.strip("()") in olds:
                     return b
+                v = self.kind_cond(e["c"])
+                if v is not None:
+                    return a if v else b
                 m = re.search(r"== (\w+)", cs)
                 if m:
                     return a if m.group(1) == self.kind else b
